@@ -133,7 +133,9 @@ class Order:
         self._derive(t)
         facts = self.ge0 + self._axioms(t)
         # only facts sharing an atom with the goal (or with a fact that does) matter; keep it small
-        return self._search(t, facts, depth, set())
+        if self._search(t, facts, depth, set()):
+            return True
+        return fm_refutes(facts, t)
 
     def _search(self, t, facts, depth, seen):
         if t.is_const():
@@ -161,6 +163,40 @@ class Order:
     def le(self, a, b):
         return self.prove_ge0(sub(b, a))
 
+    def eq_cases(self, a, b, limit=64):
+        """a == b by exhaustive case analysis on the min / max / satsub atoms of both terms (each replaced by the operand the case selects, with
+        the case's ordering added as a fact); every case must be proved.  Sound: the cases cover all values."""
+        from util import term_map
+        todo = [(a, b, [])]
+        n = 0
+        while todo:
+            x, y, extra = todo.pop()
+            n += 1
+            if n > limit:
+                return False
+            ats = [t for t in (atoms_deep(x) | atoms_deep(y)) if tag(t) in ("min", "max", "satsub")]
+            inner = [t for t in ats if not any(tag(u) in ("min", "max", "satsub") for u in atoms_deep(t) if u != t)]
+            if not inner:
+                o = Order((), self.unsigned)
+                o.ge0 = list(self.ge0) + [as_lin(e) for e in extra]
+                o.ne = list(self.ne)
+                d = as_lin(sub(x, y))
+                if not (o.prove_ge0(d) and o.prove_ge0(neg(d))):
+                    return False
+                continue
+            t = sorted(inner, key=repr)[0]
+            p, q = t[1], t[2]
+            if tag(t) == "satsub":
+                cases = [(sub(p, q), sub(p, q)), (const(0), sub(q, p))]          # (value, fact >= 0)
+            elif tag(t) == "max":
+                cases = [(p, sub(p, q)), (q, sub(q, p))]
+            else:
+                cases = [(p, sub(q, p)), (q, sub(p, q))]
+            for val, fact in cases:
+                rep = lambda u, t=t, val=val: val if u == t else None
+                todo.append((term_map(x, rep), term_map(y, rep), extra + [fact]))
+        return True
+
     def eq(self, a, b):
         d = as_lin(sub(a, b))
         if d.is_const():
@@ -176,3 +212,67 @@ def term_eq(a, b):
         return d.is_const() and d.c == 0
     except Exception:
         return False
+
+
+def fm_refutes(facts, goal, max_rows=400):
+    """Fourier-Motzkin over the rationals: True iff {f >= 0 for f in facts} and goal <= -1 have no rational solution (hence no integer one),
+    i.e. the facts imply goal >= 0.  Atoms are treated as independent variables (sound: fewer constraints can only make refutation harder)."""
+    from fractions import Fraction
+    goal = as_lin(goal)
+    rel = set(goal.m)
+    rows = []
+    pool = [as_lin(f) for f in facts]
+    changed = True
+    used = set()
+    while changed:
+        changed = False
+        for i, f in enumerate(pool):
+            if i in used or f.is_const():
+                continue
+            if set(f.m) & rel:
+                used.add(i)
+                rel |= set(f.m)
+                changed = True
+    for i in sorted(used):
+        f = pool[i]
+        rows.append(({a: Fraction(c) for a, c in f.m.items()}, Fraction(f.c)))
+    ng = {a: Fraction(-c) for a, c in goal.m.items()}
+    rows.append((ng, Fraction(-goal.c - 1)))
+    for f in pool:
+        if f.is_const() and f.c < 0:
+            return True
+    vars_ = sorted(rel, key=repr)
+    for v in vars_:
+        pos = [r for r in rows if r[0].get(v, 0) > 0]
+        negs = [r for r in rows if r[0].get(v, 0) < 0]
+        rest = [r for r in rows if r[0].get(v, 0) == 0]
+        if len(pos) * len(negs) + len(rest) > max_rows:
+            return False
+        new = []
+        for pm, pc in pos:
+            for nm, nc in negs:
+                a, b = pm[v], -nm[v]
+                m = {}
+                for k in set(pm) | set(nm):
+                    if k == v:
+                        continue
+                    val = pm.get(k, 0) * b + nm.get(k, 0) * a
+                    if val != 0:
+                        m[k] = val
+                new.append((m, pc * b + nc * a))
+        rows = rest + new
+        # drop duplicates / trivially true rows
+        seen = set()
+        out = []
+        for m, c in rows:
+            if not m:
+                if c < 0:
+                    return True
+                continue
+            key = (tuple(sorted(((repr(k), v2) for k, v2 in m.items()))), c)
+            if key in seen:
+                continue
+            seen.add(key)
+            out.append((m, c))
+        rows = out
+    return any((not m) and c < 0 for m, c in rows)
